@@ -80,7 +80,7 @@ class Execution:
     cur = None
 
     def __init__(self, prefix=(), timeouts=0, interrupts=0, line_mode=False, stop_at_seen=None,
-                 trace_files=("auditok/workers.py",), policy=None):
+                 trace_files=None, policy=None):
         self.policy = policy
         self.race = None  # RaceDetector, when unsynchronised accesses are being looked for
         self.line_codes = None  # line mode: restrict scheduling points to these (filename, firstlineno) code objects
@@ -95,7 +95,7 @@ class Execution:
         self.tbudget = timeouts
         self.ibudget = interrupts
         self.line_mode = line_mode
-        self.trace_files = trace_files
+        self.trace_files = trace_files or TRACE_FILES[0]
         self.tls = threading.local()
         self.done_evt = threading.Event()
         self.abort = False
@@ -645,6 +645,50 @@ def ctl_join(self, timeout=None):
     ex.record(("join", t.tid))
 
 
+TRACE_FILES = [("auditok/workers.py",)]  # line mode: files whose lines are scheduling points
+
+
+def block_forever(what="input"):
+    """A controlled thread waits for something that never comes (a read on a live stream with nothing more to
+    deliver): never enabled again - if nothing else can move, the execution is a deadlock."""
+    ex = Execution.cur
+    if ex is None or ex.me() is None or ex.abort:
+        raise HarnessError("blocking call outside a controlled execution")
+    ex.point(("blocked", what))
+    raise HarnessError("a blocked thread was scheduled")
+
+
+class LiveStdin:
+    """sys.stdin stand-in for a live producer that never closes its end: reads are served while data is left, a read
+    that needs more than what is left blocks for ever (under the scheduler)."""
+
+    def __init__(self, data):
+        self._d = data
+        self._p = 0
+        self.buffer = self
+        self.taken = 0
+        self.blocked_request = None
+
+    def read(self, n=-1):
+        if n is None or n < 0 or self._p + n > len(self._d):
+            self.blocked_request = n
+            block_forever("standard input of a live producer")
+        out = self._d[self._p : self._p + n]
+        self._p += n
+        self.taken = self._p
+        return out
+
+    read1 = read
+
+    def readinto(self, b):
+        data = self.read(len(b))
+        b[: len(data)] = data
+        return len(data)
+
+    def fileno(self):
+        raise OSError("no descriptor")
+
+
 _REAL_THREAD = {}
 REDUCE_START = [True]
 LIVENESS_OBSERVED = [False]
@@ -878,6 +922,9 @@ def snapshot_module_state():
 def restore_module_state():
     import copy
 
+    for lk in _MODULE_LOCKS:
+        lk._owner, lk._count, lk._vc = None, 0, None
+
     for o, name, pristine in _STATE:
         try:
             cur = vars(o).get(name)
@@ -896,6 +943,7 @@ def restore_module_state():
 
 
 _installed = {}
+_MODULE_LOCKS = []  # controlled locks standing in for import-time lock objects: released before every execution
 
 
 def install():
@@ -941,10 +989,32 @@ def install():
     for mod in (cmdline, workers):
         if hasattr(mod, "time") and getattr(mod, "time") is _tm:
             mod.time = _TimeShim(_tm)
-        if hasattr(mod, "threading") and getattr(mod, "threading") is _th:
-            mod.threading = _ThreadingShim(_th)
         if hasattr(mod, "queue") and getattr(mod, "queue") is _q:
             mod.queue = _QueueModuleShim(_q)
+    # every auditok module: a `threading` it imported becomes the shim, lock / event classes imported by name become the
+    # controlled ones, and lock OBJECTS that already exist at module or class level (created at import time) are replaced
+    # by controlled locks - a real lock would block a controlled thread outside any scheduling point
+    import types as _types
+
+    lock_types = (type(_th.Lock()), type(_th.RLock()))
+    del _MODULE_LOCKS[:]
+    mods = [m for n, m in list(sys.modules.items()) if n.startswith("auditok") and isinstance(m, _types.ModuleType)]
+    for mod in mods:
+        if getattr(mod, "threading", None) is _th:
+            mod.threading = _ThreadingShim(_th)
+        for name, ctl in (("Event", CtlEvent), ("Lock", CtlLock), ("RLock", CtlLock)):
+            if getattr(mod, name, None) is getattr(_th, name):
+                setattr(mod, name, ctl)
+        owners = [mod] + [v for v in vars(mod).values() if isinstance(v, type) and getattr(v, "__module__", "").startswith("auditok")]
+        for o in owners:
+            for name, v in list(vars(o).items()):
+                if isinstance(v, lock_types):
+                    lk = CtlLock()
+                    try:
+                        setattr(o, name, lk)
+                        _MODULE_LOCKS.append(lk)
+                    except Exception:
+                        pass
     snapshot_module_state()
     return workers
 
